@@ -58,7 +58,7 @@ PROPS['C04'] = dict(
     explanation='withdraw_liquidity: messages are exactly [pay asset0 x0, pay asset1 x1, burn a] with x_i = floor(r_i*floor(a*D/S)/D); lemma_c04 gives r_i*a/S - r_i/D - 1 < x_i <= r_i*a/S for all naturals.',
 )
 PROPS['C05'] = dict(
-    units=[('u_pair.rs', 'B', None)], min_tagged=10, trusted=PAIR_TRUST,
+    units=[('u_pair.rs', 'B', None), ('u_factory.rs', 'B', ['factory', 'querier'])], min_tagged=10, trusted=PAIR_TRUST,
     assumptions=[T_CHAIN, 'the LP token contract never spends its own balance (cw20-base has no such path): the reserved unit minted to the LP token address is unspendable'],
     explanation='calculate_lp_token_amount_to_user and provide_liquidity: share is min_i floor(d_i*S/r_i) against reserves net of native deposits (min-1 < m <= min, m >= 1), first provision gated by whitelist and minimums with floor(sqrt(d0*d1)) split 1 + (m-1); deposits pulled are exactly the declared amounts via TransferFrom(owner = caller) / attached funds.',
 )
@@ -68,7 +68,7 @@ PROPS['C09'] = dict(
     explanation='assert_sent_native_token_balance: Ok iff declared == amount of the first attached coin of that denom (0 when absent); provide_liquidity checks both declared assets before anything else (loop invariant), swap checks its offer first.',
 )
 PROPS['C10'] = dict(
-    units=[('u_pair.rs', 'B', None)], min_tagged=6, trusted=PAIR_TRUST,
+    units=[('u_pair.rs', 'B', None), ('u_factory.rs', 'B', ['factory', 'querier'])], min_tagged=6, trusted=PAIR_TRUST,
     assumptions=['asset decimals differ by at most 19 (10u64.pow aborts above; the property ranges over 0..18)'],
     explanation='assert_max_spread: Ok => the guard predicate is false, Err(MaxSpreadAssertion) => it is true, and lemma_c10_belief / lemma_c10_plain turn the guard into the statement\'s four inequalities for all naturals.',
 )
@@ -118,6 +118,8 @@ T_BYTES = 'byte-level std facts: String::as_bytes is an injective function of th
 T_FQ = 'factory-side queries are projections of the chain state: native_decimals_of (factory allow-list query), cw20 token_info, pair_self_report (the pair\'s own Pair{} answer), reply_contract_addr (address parsed from the instantiate reply); Decimal256 -> text -> Decimal256 and the literal "0.003" are text (C18 n/a) and assumed'
 FACTORY_TRUST = [T_VERUS, T_CW, T_API, T_FSTORE, T_BYTES, T_FQ, T_SERDE, T_DERIVE2, T_R4, T_R2]
 PROPS['C07']['trusted'] = sorted(set(PROPS['C07']['trusted'] + FACTORY_TRUST))
+PROPS['C05']['trusted'] = sorted(set(PROPS['C05']['trusted'] + FACTORY_TRUST))
+PROPS['C10']['trusted'] = sorted(set(PROPS['C10']['trusted'] + FACTORY_TRUST))
 
 PROPS['C14'] = dict(
     units=[('u_factory.rs', 'B', ['factory', 'querier']), ('u_pair.rs', 'B', None), ('u_router.rs', 'B', ['router', 'querier'])], min_tagged=25,
